@@ -10,8 +10,9 @@ MODE = 'math'
 
 # ------------------------------------------------------------------------------------------------- expression trees (spec side)
 def gen_expr(rnd, depth, budget):
-    """returns (text, value | 'zerodiv'); value is an exact Fraction computed by ordinary arithmetic on the stratified grammar
-    Expr := Term (('+'|'-') Term)*, Term := Fac (('*'|'/') Fac)* | Int ('\\' Int)*, Fac := sign* Atom, Atom := number | '(' Expr ')'"""
+    """returns (text, value | 'zerodiv', double): value is the exact Fraction ordinary arithmetic assigns on the stratified grammar
+    Expr := Term (('+'|'-') Term)*, Term := Fac (('*'|'/') Fac)* | IAtom ('\\' IAtom)*, Fac := sign* Atom, Atom := number | '(' Expr ')';
+    double is the same tree evaluated in IEEE doubles (used only to recognise the float-floor gap, known finding F32)"""
     def sp(): return rnd.choice(['', '', '', ' ', '  ', '\t'])
 
     def number():
@@ -20,13 +21,13 @@ def gen_expr(rnd, depth, budget):
         elif k < .7: t = str(rnd.randint(0, 9999))
         elif k < .85: t = '%d.%d' % (rnd.randint(0, 99), rnd.randint(0, 99))
         else: t = '.%d' % rnd.randint(0, 999)
-        return t, F(t if not t.startswith('.') else '0' + t)
+        return t, F(t if not t.startswith('.') else '0' + t), float(t)
 
     def atom(d):
         if d > 0 and budget[0] > 0 and rnd.random() < .3:
             budget[0] -= 1
-            t, v = expr(d - 1)
-            return '(' + sp() + t + sp() + ')', v
+            t, v, f = expr(d - 1)
+            return '(' + sp() + t + sp() + ')', v, f
         return number()
 
     def fac(d):
@@ -35,49 +36,57 @@ def gen_expr(rnd, depth, budget):
         while rnd.random() < .25:
             c = rnd.choice('+-'); signs += c + sp()
             if c == '-': neg = not neg
-        t, v = atom(d)
-        if v != 'zerodiv' and neg: v = -v
-        return signs + t, v
+        t, v, f = atom(d)
+        if v != 'zerodiv' and neg: v = -v; f = -f
+        return signs + t, v, f
 
-    def intatom():
+    def intatom(dec):
+        if dec and rnd.random() < .6:
+            t = rnd.choice(['.1', '.2', '.3', '.5', '.25', '0.1', '0.7', '1.5', '2.5', '.4', '.6', '1.1', '.05', '0.01', '%d.%d' % (rnd.randint(0, 9), rnd.randint(1, 9))])
+            return t, F('0' + t if t.startswith('.') else t), float(t)
         n = rnd.randint(0, 50) if rnd.random() < .9 else rnd.randint(0, 100000)
-        if rnd.random() < .2: return '-' + sp() + str(n), F(-n)
-        return str(n), F(n)
+        if rnd.random() < .2: return '-' + sp() + str(n), F(-n), float(-n)
+        return str(n), F(n), float(n)
 
     def term(d):
-        if rnd.random() < .2:
-            t, v = intatom()
+        if rnd.random() < .25:
+            dec = rnd.random() < .4            # integer division between decimal fractions too
+            t, v, f = intatom(dec)
             while budget[0] > 0 and rnd.random() < .6:
                 budget[0] -= 1
-                t2, v2 = intatom()
+                t2, v2, f2 = intatom(dec)
                 t += sp() + '\\' + sp() + t2
-                if v != 'zerodiv': v = 'zerodiv' if v2 == 0 else F(floor(v / v2))
-            return t, v
-        t, v = fac(d)
+                if v != 'zerodiv':
+                    if v2 == 0: v = 'zerodiv'
+                    else: v = F(floor(v / v2)); f = float(floor(f / f2))
+            return t, v, f
+        t, v, f = fac(d)
         while budget[0] > 0 and rnd.random() < .45:
             budget[0] -= 1
             op = rnd.choice('*/')
-            t2, v2 = fac(d)
+            t2, v2, f2 = fac(d)
             t += sp() + op + sp() + t2
             if v == 'zerodiv' or v2 == 'zerodiv': v = 'zerodiv'
-            elif op == '*': v = v * v2
+            elif op == '*': v = v * v2; f = f * f2
             elif v2 == 0: v = 'zerodiv'
-            else: v = v / v2
-        return t, v
+            else: v = v / v2; f = f / f2
+        return t, v, f
 
     def expr(d):
-        t, v = term(d)
+        t, v, f = term(d)
         while budget[0] > 0 and rnd.random() < .45:
             budget[0] -= 1
             op = rnd.choice('+-')
-            t2, v2 = term(d)
+            t2, v2, f2 = term(d)
             # a binary +/- followed by a Term that starts with a sign is fine: `2--3`
             t += sp() + op + sp() + t2
             if v == 'zerodiv' or v2 == 'zerodiv': v = 'zerodiv'
-            else: v = v + v2 if op == '+' else v - v2
-        return t, v
-    t, v = expr(depth)
-    return sp() + t, v          # no trailing white space: the parser rejects it (as upstream does); the statement does not cover it
+            else:
+                v = v + v2 if op == '+' else v - v2
+                f = f + f2 if op == '+' else f - f2
+        return t, v, f
+    t, v, f = expr(depth)
+    return sp() + t, v, f          # no trailing white space: the parser rejects it (as upstream does); the statement does not cover it
 
 
 def cases(tier, seed, prop):
@@ -88,9 +97,11 @@ def cases(tier, seed, prop):
     for _ in range(n // 2):
         out.append({'s': ''.join(rnd.choice(gens.MATH_ALPHA + ['10', '0', '.5', '(1+2)', '-', 'a', '٣']) for _ in range(rnd.randint(6, 14))), 'g': 'rand'})
     for _ in range(n):
-        t, v = gen_expr(rnd, 3, [rnd.randint(0, 9)])
+        t, v, f = gen_expr(rnd, 3, [rnd.randint(0, 9)])
         # an evaluation order that divides by zero in a sub-term the spec also flags; mixed outcomes are compared as given
-        out.append({'s': t, 'g': 'expr', 'val': 'zerodiv' if v == 'zerodiv' else [v.numerator, v.denominator]})
+        c = {'s': t, 'g': 'expr', 'val': 'zerodiv' if v == 'zerodiv' else [v.numerator, v.denominator]}
+        if v != 'zerodiv' and '\\' in t: c['fval'] = repr(f)
+        out.append(c)
     return out
 
 
@@ -148,6 +159,40 @@ def oracle_extract(text, pos, r):
     return v
 
 
+def close(a, b):
+    return abs(a - b) <= F(1, 10 ** 9) * max(1, abs(b))
+
+
+def rpn_values(parse_line):
+    """the implementation's RPN evaluated (a) exactly and (b) in IEEE doubles with `\\` = floor of the double quotient, as documented;
+    None when it cannot be evaluated (stack underflow, division by zero)"""
+    if not parse_line.startswith('ok'): return None
+    ex, fl = [], []
+    try:
+        for tok in parse_line[3:].split():
+            k = tok.split(':')
+            if k[0] == 'num':
+                n, d = k[1].split('/'); q_ = F(int(n), int(d)); ex.append(q_); fl.append(float(q_))
+            elif k[0] == 'op1':
+                a, b = ex.pop(), fl.pop()
+                if int(k[1]) == 45: a, b = -a, -b
+                ex.append(a); fl.append(b)
+            elif k[0] == 'op2':
+                b1, b2 = ex.pop(), fl.pop(); a1, a2 = ex.pop(), fl.pop()
+                o = chr(int(k[1]))
+                if o == '+': ex.append(a1 + b1); fl.append(a2 + b2)
+                elif o == '-': ex.append(a1 - b1); fl.append(a2 - b2)
+                elif o == '*': ex.append(a1 * b1); fl.append(a2 * b2)
+                elif o == '/': ex.append(a1 / b1); fl.append(a2 / b2)
+                elif o == '\\': ex.append(F(floor(a1 / b1))); fl.append(float(floor(a2 / b2)))
+                else: return None
+            else: return None
+        if len(ex) != 1: return None
+        return ex[0], F(repr(fl[0]))
+    except Exception:
+        return None
+
+
 def run(case, prop):
     from emmet.math_expression import evaluate, extract
     from emmet.math_expression.parser import parse
@@ -172,7 +217,12 @@ def run(case, prop):
         else:
             w = F(want[0], want[1])
             if not e.startswith('ok ') or val is None: viol.append('value| %r: expected %s, got %s' % (s, w, e))
-            elif abs(F(repr(float(val))) - w) > F(1, 10 ** 9) * max(1, abs(w)): viol.append('value| %r evaluates to %r, ordinary arithmetic gives %s' % (s, val, w))
+            elif not close(F(repr(float(val))), w):
+                fv = F(case['fval']) if case.get('fval') not in (None, 'inf', '-inf', 'nan') else None
+                if fv is not None and not close(fv, w) and close(F(repr(float(val))), fv):
+                    # the documented tree evaluated in IEEE doubles already differs from exact arithmetic, and that is what came out
+                    viol.append('float-floor| %r evaluates to %r, ordinary arithmetic gives %s (the double quotient falls on the other side of an integer)' % (s, val, w))
+                else: viol.append('value| %r evaluates to %r, ordinary arithmetic gives %s' % (s, val, w))
     # extract clause: every position of the text
     for pos in range(0, len(s) + 1):
         try:
@@ -196,8 +246,13 @@ def compare(case, line, ml):
         py = F(a[1][3:]) if a[1][3:] not in ('inf', '-inf', 'nan') else None
         if py is None: return None
         n, d = b[1][3:].split('/'); qv = F(int(n), int(d))
-        if abs(py - qv) <= F(1, 10 ** 9) * max(1, abs(qv)): return True
-        if '\\' in s and abs(abs(py - qv) - 1) < F(1, 10 ** 6): return None      # floor of a double quotient just below/above an integer (float gap, DESIGN §8)
+        if close(py, qv): return True
+        if '\\' in s:
+            # float gap (known finding F32): the implementation's own RPN, evaluated in doubles as documented (floor of the double
+            # quotient), already differs from exact arithmetic, and the implementation returned exactly that
+            if any(len(run_.split('.')[-1]) > 9 for run_ in __import__('re').findall(r'[0-9]*\.[0-9]+', s)): return None
+            rv = rpn_values(a[0])
+            if rv is not None and not close(rv[1], rv[0]) and close(py, rv[1]): return None
         return False
     return False
 
